@@ -841,3 +841,83 @@ def run(ctx):
     _run_main3(ctx)
     extras3(ctx)
     ctx.flush()
+
+
+# ---- round 9 (hx_r9c): histories on ONE cluster ------------------------------------------------------------------------------------------------
+# A Cluster is a mutable object: `master_index` is a plain attribute the analyst may re-assign, the member signals may be edited through
+# signal_by_index, and same_start / time_match may be called any number of times. Every call must act on the cluster AS IT IS NOW: the signal at the
+# CURRENT master_index is the reference and stays unchanged, every other signal is aligned to it (the clauses of C18.c / C18.d per call), and the
+# outcome is the one a cluster freshly built from the current records with that master_index gives.
+
+def _x4_histories(ctx, cur):
+    import eqsig
+    rng = ctx.rng
+    dt = 0.5
+    for it in range(60 if ctx.tier == 'quick' else 600):
+        steps = rng.choice([2, 3, 5])
+        n = rng.choice([12 + steps, 20 + steps, 40])
+        nsig = rng.choice([2, 3, 3, 4])
+        base = [rng.randint(-9, 9) for _ in range(n)]
+        sigs = [shifted(rng, base, rng.choice(range(-steps + 1, steps))) for _ in range(nsig)]
+        m0 = rng.randrange(nsig)
+        cl = eqsig.Cluster([np.array(s, dtype=float) for s in sigs], dt, master_index=m0, stypes=rng.choice(['custom', 'acc']))
+        hist = []
+        for step in range(rng.randint(2, 4)):
+            if step and rng.random() < 0.8:
+                m = rng.choice([k for k in range(nsig) if k != cl.master_index])
+                cl.master_index = m
+                hist.append('master_index = %d' % m)
+            if rng.random() < 0.4:
+                k, c = rng.randrange(nsig), rng.choice([4.0, -2.5, 0.5])
+                if rng.random() < 0.5:
+                    cl.signal_by_index(k).add_constant(c)
+                    hist.append('signal_by_index(%d).add_constant(%r)' % (k, c))
+                else:
+                    cl.signal_by_index(k).reset_values(np.array(cl.values_by_index(k), dtype=float)[::-1] * c)
+                    hist.append('signal_by_index(%d).reset_values(reversed * %r)' % (k, c))
+            master = cl.master_index
+            before = [np.array(cl.values_by_index(i), dtype=float) for i in range(nsig)]
+            op = rng.choice(['same_start', 'same_start', 'time_match'])
+            start, end = rng.choice([(0, 1), (0.5, 2.0), (1.0, 4.0)])
+            hist.append('%s(start=%r, end=%r)' % (op, start, end) if op == 'same_start' else 'time_match(steps=%d)' % steps)
+            inputs = {'signals': sigs, 'dt': dt, 'master_index at construction': m0, 'history': list(hist), 'master_index now': master,
+                      'records before the last call': before}
+            cur.clear(); cur.update(inputs)
+            ctx.hist('cluster-history/' + op + ('/re-hosted' if master != m0 else ''))
+            ctx.count_case(('x4', it, step), True)
+            fresh = eqsig.Cluster([b.copy() for b in before], dt, master_index=master)
+            if op == 'same_start':
+                cl.same_start(start=start, end=end); fresh.same_start(start=start, end=end)
+                lag = flag = None
+            else:
+                lag, flag = cl.time_match(steps=steps), fresh.time_match(steps=steps)
+            out = [np.asarray(cl.values_by_index(i), dtype=float) for i in range(nsig)]
+            fout = [np.asarray(fresh.values_by_index(i), dtype=float) for i in range(nsig)]
+            ctx.oracle('C18.c same_start leaves the master unchanged' if op == 'same_start' else 'C18.d time_match leaves the master unchanged',
+                       np.array_equal(out[master], before[master]), inputs)
+            if op == 'same_start':
+                want = sec_spec(before[master], dt, start, end)
+                for k in range(nsig):
+                    if k != master:
+                        after = sec_spec(out[k], dt, start, end)
+                        ctx.oracle('C18.c after same_start the section average of every non-master signal equals the master\'s',
+                                   after is not None and abs(after - want) <= Fraction(1, 10**9) * max(abs(want), 1), {**inputs, 'signal': k},
+                                   detail={'after': float(after), 'master': float(want)})
+            ctx.oracle('C18 a call on a cluster with a history (master_index re-assigned, members edited, earlier calls) gives what a cluster freshly '
+                       'built from the current records with the current master_index gives', lag == flag and all(_x3_same(x, y) for x, y in zip(out, fout)),
+                       inputs, detail={'returned': lag, 'fresh returned': flag, 'differing signals': [i for i in range(nsig) if not _x3_same(out[i], fout[i])]})
+    ctx.flush()
+
+
+def extras4(ctx):
+    from _hxb_common import guarded_sections
+    guarded_sections(ctx, 'C18', [('cluster histories', _x4_histories)])
+
+
+_run_main4 = run
+
+
+def run(ctx):
+    _run_main4(ctx)
+    extras4(ctx)
+    ctx.flush()
